@@ -322,9 +322,9 @@ Definition spec_n2s (prec : Z) (x : xnum) : bytes :=
           sign ++ fixed_dec (round_dec m j) j
   end.
 
-(* lyxp_set_cast() LYXP_SET_NUMBER -> LYXP_SET_STRING: "%lld" when (long long)num == num, otherwise "%03.1Lf":
+(* lyxp_set_cast() LYXP_SET_NUMBER -> LYXP_SET_STRING: '%lld' when (long long)num == num, otherwise '%03.1Lf':
    exactly ONE fraction digit (rounded half to even on the exact binary value); integers outside the long long range
-   are printed with ".0". *)
+   are printed with '.0'. *)
 Definition ll_min : Z := (- 2 ^ 63)%Z.
 Definition ll_max : Z := (2 ^ 63 - 1)%Z.
 
